@@ -1,7 +1,7 @@
 """All contracts, by name."""
-from . import symbolic_nodes, negation, quantifiers, mappings, toplevel, cache, required, predicate_form, hashed, constructors, aggregations, rules
+from . import symbolic_nodes, negation, quantifiers, mappings, toplevel, cache, required, predicate_form, hashed, constructors, aggregations, rules, rule_build
 
-MODULES = [symbolic_nodes, negation, quantifiers, mappings, toplevel, cache, required, predicate_form, hashed, constructors, aggregations, rules]
+MODULES = [symbolic_nodes, negation, quantifiers, mappings, toplevel, cache, required, predicate_form, hashed, constructors, aggregations, rules, rule_build]
 
 
 def all_contracts():
@@ -143,6 +143,16 @@ CLAIMS.update({
                 "3 keys thorough, alphabet 2, up to 2 / 3 inserts, every lookup), which finds the recorded retrieve defect.",
                 note="level other: part bounded; known finding: retrieve follows either the concrete or the wildcard branch of "
                      "a level, never both, so stored entries that match a lookup are missed"),
+    'C12': dict(level='other', text="Branch attachment (rule.refinement, rule.alternative_or_next; every obligation from the current "
+                "source, the climb loop by invariant Top0(current_node) == Top0(current)): the new ExceptIf wraps the current "
+                "rule, the new Alternative / Next wraps the top of the whole rule (past every refinement that wraps it and every "
+                "alternative already attached), the new node takes exactly the slot of what it wraps and no other operand of "
+                "any node changes (nothing attached earlier is lost). Conclusion selection: ExceptIf._evaluate__ proved against "
+                "the interface plus clause S1 (at every yield its conclusion set is that of the refinement if the refinement "
+                "holds for the row, else that of the refined rule; cleared after every row).",
+                note="level other: Alternative / Next selection (ElseIf / Union streams + update_conclusion's de-duplication) and "
+                     "the application of the selected conclusions by the descriptor are covered by the bounded rule-tree "
+                     "stand-ins only (random trees against a recursive reference reading), not proved; assumption RT"),
 })
 NOT_APPLICABLE = {}
 
@@ -183,7 +193,10 @@ ORACLES = {
             _oracle('concatenate with falsy elements', 100, 1500, kind='concat', falsy=True)],
     'C18': [_oracle('meaning preserving rewrites (swap, re-associate, mirror, contains/in_, declaration order, domain permutation)', 250, 4000, kind='rewrite')],
     'C11': [_oracle('infer(entity(T(f1=e1, f2=e2), conditions)) in rule mode', 200, 3000, kind='infer')],
-    'C12': [_oracle('rule trees: refinement / alternative nested two levels, six shapes', 250, 4000, kind='rdr')],
+    'C12': [_oracle('rule trees: refinement / alternative nested two levels, six shapes', 250, 4000, kind='rdr'),
+            _oracle('random rule trees: up to 5 rules, several refinements / alternatives per block, nested two levels', 300, 5000,
+                    kind='rdrtree', rules=5, depth=2),
+            _oracle('random rule trees: up to 7 rules nested three levels', 100, 3000, kind='rdrtree', rules=7, depth=3, n=6)],
     'C14': [_oracle('registry histories: concrete / symbolic construction, clearing, no-domain queries', 200, 3000, kind='registry')],
     'C13': [_oracle('predicate form vs explicit query, mixed-type domains, positional and keyword fields', 250, 4000, kind='predform', allow_empty=True)],
     'C04': [_oracle('histories of full / partial / aborted evaluations (result cache on)', 200, 3000, kind='history'),
